@@ -50,7 +50,7 @@ static entry const table[] = {
     {"asech", a_complex_asech_, 0, 0, 0, 0}, {"acsch", a_complex_acsch_, 1, 0, 0, 0}, {"acoth", a_complex_acoth_, 1, 0, 0, 0},
     {"inv", a_complex_inv_, 1, 1, 0, 0},
 };
-static a_real const mags[] = {(a_real)7.888609052210118e-31 /* 2^-100 */, (a_real)(1.0 / 1048576), (a_real)0.125, (a_real)0.3125, (a_real)0.75, (a_real)1.1875, (a_real)3, (a_real)20};
+static a_real mags[] = {(a_real)7.888609052210118e-31 /* 2^-100; replaced in main by 2^-600 for wider reals: squares underflow */, (a_real)(1.0 / 1048576), (a_real)0.125, (a_real)0.3125, (a_real)0.75, (a_real)1.1875, (a_real)3, (a_real)20};
 
 static void unary(entry const *t, a_real re, a_real im)
 {
@@ -229,6 +229,26 @@ int main(int argc, char **argv)
     f = fopen(argv[1], "w");
     if (!f) { perror(argv[1]); return 3; }
     int nm = (int)(sizeof(mags) / sizeof(mags[0]));
+    if (sizeof(a_real) > 4) { mags[0] = (a_real)ldexp(1.0, -600); }
+    {
+        /* huge arguments (squares overflow) for the functions whose value stays representable there */
+        static char const *const slow[] = {"sqrt", "log", "log2", "log10", "asin", "acos", "atan", "asec", "acsc", "acot", "asinh", "acosh", "atanh",
+                                           "asech", "acsch", "acoth", "inv", "tanh", "coth"};
+        a_real const H = (a_real)ldexp(1.0, sizeof(a_real) > 4 ? 600 : 100), M = (a_real)3;
+        for (size_t k = 0; k < sizeof(table) / sizeof(table[0]); ++k)
+        {
+            int use = 0;
+            for (size_t j = 0; j < sizeof(slow) / sizeof(slow[0]); ++j) { use |= !strcmp(slow[j], table[k].name); }
+            if (!use) { continue; }
+            for (int s4 = 0; s4 < 4; ++s4)
+            {
+                a_real const sr = (s4 & 1) ? -1 : 1, si = (s4 & 2) ? -1 : 1;
+                unary(&table[k], sr * H, si * H);
+                unary(&table[k], sr * H, si * M);
+                unary(&table[k], sr * M, si * H);
+            }
+        }
+    }
     for (size_t k = 0; k < sizeof(table) / sizeof(table[0]); ++k)
     {
         entry const *t = &table[k];
